@@ -20,6 +20,12 @@ SEEDS = ["CC(=O)OCC>>CCO", "CC(=O)OC>>CC(=O)O", "CCC(=O)OC>>CO", "BrBr>>Cl", "CC
          "COC(=O)c1ccccc1.O>>CO"]
 
 
+THR_INPUTS = ["CC(=O)C>>CC(O)C", "CC(=O)OCC>>CC(=O)O", "CCBr.[OH-]>>CCO", "CC(=O)OC>>CC(=O)O", "CCO>>CCO", "CC(=O)OCC>>CCO",
+              "COC(=O)c1ccccc1>>OC(=O)c1ccccc1", "CC>>CCC", "CC(=O)Nc1ccccc1>>Nc1ccccc1", "CC(=O)OCC.O>>CC(=O)O",
+              "CC(=O)Cl.N>>CC(N)=O", "CCC(=O)OC>>CO"]
+TSUF = " @t=0.5"
+
+
 def _row(e):
     return {"key": e["argstr"], "reaction": e["reaction"], "input_reaction": e["input_reaction"],
             "solved": e["solved"], "by": e["by"], "conf_raw": e["conf_raw"], "rules": e["rules"],
@@ -32,8 +38,10 @@ def _layouts(inputs, rng, tier):
     specs = [(None, 16), (1, 1), (3, 2), (7, 16), (2, 1), (None, 16)] if tier == "quick" else \
         [(None, 16), (1, 1), (2, 2), (3, 4), (5, 16), (7, 16), (11, 3), (n, 16), (n + 1, 2), (None, 1),
          (4, 16), (None, 16), (9, 5), (13, 16), (2, 16), (None, 8), (6, 1), (17, 16), (3, 16), (None, 16)]
+    dups = [inputs[j] for j in range(0, len(inputs), max(1, len(inputs) // 8))]
     for k, (bs, nj) in enumerate(specs):
-        perm = list(inputs)
+        # verbatim repeats of some rows (a data set that lists a reaction several times), spread by the shuffle
+        perm = list(inputs) + (dups if k % 2 == 0 else dups + dups[:3])
         if k == 0:
             pass
         elif k == 1:
@@ -77,6 +85,10 @@ def run(tier):
     # so that anything kept between calls (in the object, the class, the module) shows as a difference
     solo_plan = {"runs": [{"name": "solo", "inputs": [s], "form": "list", "batch_size": None, "n_jobs": 1,
                            "threshold": 0, "fresh": True} for s in inputs]}
+    # a second, small family at a non-default confidence threshold (rows before / after a low-confidence MCS row)
+    for s_ in THR_INPUTS:
+        solo_plan["runs"].append({"name": "solo_t", "inputs": [s_], "form": "list", "batch_size": None, "n_jobs": 1,
+                                  "threshold": 0.5, "fresh": True})
     p1 = os.path.join(wd, "solo_plan.json")
     with open(p1, "w") as f:
         json.dump(solo_plan, f)
@@ -87,7 +99,16 @@ def run(tier):
     # phase 2: the same multiset in several layouts
     p2 = os.path.join(wd, "layout_plan.json")
     with open(p2, "w") as f:
-        json.dump({"runs": _layouts(inputs, rng, tier)}, f)
+        lay = _layouts(inputs, rng, tier)
+        for k, (bs_, nj_) in enumerate([(None, 1), (3, 2), (None, 16), (2, 1)]):
+            perm = list(THR_INPUTS)
+            if k == 1:
+                perm.reverse()
+            elif k > 1:
+                rng.shuffle(perm)
+            lay.append({"name": "thr_layout%d_bs%s_j%d" % (k, bs_, nj_), "inputs": perm, "form": "list" if k % 2 else "dict",
+                        "batch_size": bs_, "n_jobs": nj_, "threshold": 0.5})
+        json.dump({"runs": lay}, f)
     l1, l2 = os.path.join(wd, "solo.ndjson"), os.path.join(wd, "layouts.ndjson")
     common.run_drivers_parallel([("drv_pipeline", [p1, l1], None), ("drv_pipeline", [p1r, l1r], None)])
     common.run_drivers_parallel([("drv_pipeline", [p2, l2], None)], timeout=6 * 3600)
@@ -102,20 +123,22 @@ def run(tier):
             if len(cur) != 1:
                 raise common.MachineryError("solo call returned %d rows for %r" % (len(cur), e["args"]))
             nid += 1
+            if e["name"] == "solo_t":
+                cur[0]["argstr"] += TSUF
             events.append({"ev": "solo", "id": nid, "key": cur[0]["argstr"], "row": _row(cur[0]), "stats": e["stats"]})
             solo_rows[cur[0]["argstr"]] = cur[0]
             cur = []
     # exclude reactions whose solo search touched a wall-clock budget (not reproducible)
     slow = {k for k, e in solo_rows.items() if "timeout" in e["issue"].lower()}
     # the same solo calls made in the opposite order on ONE object in another process
-    rev_rows = {e["argstr"]: e for e in common.read_ndjson(l1r) if e["ev"] == "row"}
+    rev_rows = {e["argstr"] + (TSUF if e.get("name") == "solo_t" else ""): e for e in common.read_ndjson(l1r) if e["ev"] == "row"}
     slow |= {k for k, e in rev_rows.items() if "timeout" in e["issue"].lower()}
     for k, e in solo_rows.items():
         r2 = rev_rows.get(k)
         if k in slow or r2 is None:
             continue
         a, b2 = _row(e), _row(r2)
-        diff = [f for f in a if a[f] != b2[f]]
+        diff = [f for f in a if f != "key" and a[f] != b2[f]]
         if diff:
             rep.fail("SoloResultIndependentOfEarlierCalls", "input=%s differs in %s" % (k, ",".join(diff)),
                      detail={"fresh_object_forward_order": a, "one_object_reverse_order": b2}, group="solo-history",
@@ -127,6 +150,10 @@ def run(tier):
             cur.append(e)
         elif e["ev"] == "run":
             nid += 1
+            if e["name"].startswith("thr_"):
+                for x in cur:
+                    x["argstr"] += TSUF
+                e["args"] = [a + TSUF for a in e["args"]]
             rows = [_row(x) for x in cur if x["argstr"] not in slow]
             ev = {"ev": "run", "id": nid, "name": e["name"], "rows": rows, "stats": e["stats"],
                   "ninputs": e["ninputs"] - sum(1 for a in e["args"] if a in slow), "cfg": e["cfg"]}
@@ -166,8 +193,9 @@ def run(tier):
                       "methods": {m: sum(1 for e in solo_rows.values() if e["by"] == m) for m in
                                   ("input-balanced", "rule-based", "mcs-based", "ABSENT")}})
     rep.sample(events[0])
-    rep.sample({"layout": events[len(inputs)]["name"], "first_rows": events[len(inputs)]["rows"][:2],
-                "stats": events[len(inputs)]["stats"]})
+    first_run = [e for e in events if e["ev"] == "run"][0]
+    rep.sample({"layout": first_run["name"], "first_rows": first_run["rows"][:2],
+                "stats": first_run["stats"]})
     rep.assumptions += ["rows compared field by field as strings (same code, same input => same text)",
                         "reactions whose solo search hit a wall-clock timeout are excluded from the comparison"]
     return rep.finish()
